@@ -49,6 +49,11 @@ def run(tier, seed):
             (REAL_CAP, 10, [], "eof"), (65535, 65535, be(1, 4) + [9], "two"), (65536, 65536, be(0, 4) + be(1, 4) + [9], "three")):
         big.append({"kind": "read", "prefix": 4, "wire_template": {"head": be(ln, 4), "body": body, "tail": tail}, "sched": [4, 7, 100000, 65536, 70000, 5, -1],
                     "expect": expect, "len": ln})
+    # bodies beyond 64 KiB followed by further frames that arrive in one piece with the body's tail (coalesced delivery)
+    for ln in (65537, 70000, 131073, 200000):
+        for sched in ([4, 1000, 400000, -1], [4, ln - 7, 400000, -1], [3, 1, 65536, 400000, -1], [400000, -1]):
+            big.append({"kind": "read", "prefix": 4, "wire_template": {"head": be(ln, 4), "body": ln, "tail": be(2, 4) + [8, 9] + be(0, 4) + be(1, 4) + [7]}, "sched": sched,
+                        "expect": "big_then", "len": ln})
     big.append({"kind": "read", "prefix": 2, "wire_template": {"head": be(65535, 2), "body": 65535, "tail": be(1, 2) + [9]}, "sched": [1, 1, 65535, 3, -1], "expect": "two", "len": 65535})
     # writer: streaming vs one-shot under partial writes
     writes = []
@@ -87,7 +92,7 @@ def run(tier, seed):
                 v.violation("frame_message produced different bytes than the protocol's framing", {**case, "expected": r["wire"], "got": o["one_shot"]})
             continue
         if "expect" in r:
-            v.case("big" + json.dumps([r["len"], r["prefix"], r["expect"]]))
+            v.case("big" + json.dumps([r["len"], r["prefix"], r["expect"], r["sched"]]))
             case = {"declared_length": r["len"], "prefix_bytes": r["prefix"], "obs": {k: o[k] for k in ("err", "consumed", "largest_alloc")}, "returned": len(o["out"])}
             if r["expect"] == "refused":
                 if o["err"] is None or o["out"]:
@@ -97,6 +102,10 @@ def run(tier, seed):
             elif r["expect"] == "eof":
                 if o["err"] is None or o["out"]:
                     v.violation("end-of-stream inside a frame did not end in an error", case)
+            elif r["expect"] == "big_then":
+                ok = len(o["out"]) == 4 and len(o["out"][0]) == r["len"] and set(o["out"][0]) == {0xAB} and o["out"][1:] == [[8, 9], [], [7]]
+                if not ok:
+                    v.violation("a frame beyond 64 KiB followed by further frames in the same delivery was not read back as sent", {**case, "schedule": r["sched"], "lengths_returned": [len(x) for x in o["out"]]})
             else:
                 want = 2 if r["expect"] == "two" else 3
                 if len(o["out"]) != want or len(o["out"][0]) != r["len"] or o["out"][-1] != [9]:
